@@ -684,7 +684,7 @@ class CallMixin:
                 # survives this call site the function's verification is an error (verify.py).
                 site = f'{c.short}#{ordk}'
                 stat = self.site_stats.setdefault(site, [0, 0])
-                if p.qf.check() == z3.unsat:
+                if not p.tainted and p.qf.check() == z3.unsat:
                     stat[1] += 1
                     raise Infeasible()
                 stat[0] += 1
